@@ -283,7 +283,7 @@ func c04Truth(w *World) {
 				want += int64(len(w.G.PieceBytes(i)))
 			}
 		}
-		if stats.Bytes.Completed != want && !(s.Status == "Stopped" || s.Status == "Stopping" || s.Status == "Allocating" || s.Status == "Verifying") {
+		if stats.Bytes.Completed != want {
 			w.Failf("C04.truth.bytes-completed", "Bytes.Completed=%d but the %d pieces held sum to %d bytes (status %s)", stats.Bytes.Completed, stats.Pieces.Have, want, s.Status)
 		}
 	}
